@@ -389,6 +389,10 @@ impl DB {
         } else {
             db_fields_guard.version_set.get_prev_sequence_number()
         };
+        // The memtable, the immutable memtable and the current version must be captured as one
+        // consistent cut while the mutex is held. A memtable rotation followed by a flush can
+        // complete as soon as the mutex is released.
+        let memtable = self.memtable();
         let maybe_immutable_memtable = db_fields_guard.maybe_immutable_memtable.clone();
         let current_version = db_fields_guard.version_set.get_current_version();
 
@@ -401,7 +405,7 @@ impl DB {
                 verif_point!("get.unlocked");
 
                 // Check the memtable first
-                if let Ok(maybe_value) = self.memtable().get(&internal_key) {
+                if let Ok(maybe_value) = memtable.get(&internal_key) {
                     match maybe_value {
                         Some(value) => return Ok(Some(value.clone())),
                         None => {
